@@ -1095,6 +1095,16 @@ static inline std::ostream& embrace(std::ostream& os, bool old, const expression
         return expr.print(os, old);
 }
 
+/** Prints "quantifier(name:type) " in the syntax the parser reads. */
+static std::ostream& print_binder(std::ostream& os, const char* quantifier, const symbol_t& symbol)
+{
+    // the builder adds the const prefix itself, and "const" is not a keyword inside queries
+    auto type = symbol.get_type();
+    if (type.get_kind() == CONSTANT)
+        type = type.get(0);
+    return os << quantifier << '(' << symbol.get_name() << ':' << type.declaration() << ") ";
+}
+
 int get_precedence_or_default(const expression_t& expr)
 {
     try {
@@ -1477,17 +1487,17 @@ std::ostream& expression_t::print(std::ostream& os, bool old) const
         break;
 
     case FORALL:
-        os << "forall(" << get(0).get_symbol().get_name() << ':' << get(0).get_symbol().get_type().str() << ") ";
+        print_binder(os, "forall", get(0).get_symbol());
         get(1).print(os, old);
         break;
 
     case EXISTS:
-        os << "exists(" << get(0).get_symbol().get_name() << ':' << get(0).get_symbol().get_type().str() << ") ";
+        print_binder(os, "exists", get(0).get_symbol());
         get(1).print(os, old);
         break;
 
     case SUM:
-        os << "sum(" << get(0).get_symbol().get_name() << ':' << get(0).get_symbol().get_type().str() << ") ";
+        print_binder(os, "sum", get(0).get_symbol());
         get(1).print(os, old);
         break;
 
